@@ -197,6 +197,11 @@ let run_adf id (lines : string list) =
     let ps = if !sort = "lexi" then varsort_lexi ps0 else ps0 in
     let psr = ref ps in
     emit id "parse" ("OK " ^ join "," (fun s -> hex (string_of_str s)) ps.names);
+    (* the dictionary of the parser / the variable container: position of every statement, size, a label that does not occur *)
+    (let nm = ps.names in
+     let dv = List.map (fun s -> match index_of s nm O with Some i -> string_of_int (int_of_nat i) | None -> "none") nm in
+     let probe = match index_of (str_of_string "no such statement") nm O with Some _ -> "some" | None -> "none" in
+     emit id "dict" (string_of_int (List.length nm) ^ " " ^ (if dv = [] then "-" else String.concat "," dv) ^ " " ^ probe ^ " vc=1"));
     match resolve_acs ps.names ps.acs with
     | None -> emit id "build" "PANIC"
     | Some fs ->
@@ -244,7 +249,19 @@ let run_adf id (lines : string list) =
              | Some fs' ->
                let (st', ac') = unopt (from_parser c (nat_of_int (List.length ps'.names)) fs') in
                a.st <- st'; a.ac <- ac';
-               emit id qid ("rebuild " ^ srt ^ " names=" ^ join "," (fun s -> hex (string_of_str s)) ps'.names))
+               emit id qid ("rebuild " ^ srt ^ " names=" ^ join "," (fun s -> hex (string_of_str s)) ps'.names
+                            ^ " dict=" ^ String.concat "," (List.map (fun s -> match index_of s ps'.names O with Some i -> string_of_int (int_of_nat i) | None -> "none") ps'.names)))
+          | ["reparse"; h] ->
+            (* a second parse() call on the same parser object, then a new ADF is instantiated from it (native back-end) *)
+            let (ps', ok') = parse_from !psr (str_of_string (unhex h)) in
+            psr := ps';
+            (match resolve_acs ps'.names ps'.acs with
+             | None -> emit id qid ("reparse " ^ (if ok' then "OK" else "ERR") ^ " PANIC")
+             | Some fs' ->
+               let (st', ac') = unopt (from_parser c (nat_of_int (List.length ps'.names)) fs') in
+               a.st <- st'; a.ac <- ac';
+               emit id qid ("reparse " ^ (if ok' then "OK" else "ERR") ^ " names=" ^ join "," (fun s -> hex (string_of_str s)) ps'.names
+                            ^ " acs=" ^ handles_string ac'))
           | ["paths"] ->
             let hs = N0 :: n_of_int 1 :: a.ac in
             emit id qid ("paths " ^ String.concat " " (List.map (fun t ->
@@ -310,7 +327,8 @@ let run_adf id (lines : string list) =
             let (_, cands) = unopt (stable_candidates c s0 nat_ac) in
             let (s, l) = unopt (stable_from_candidates c a.st a.ac cands) in a.st <- s;
             emit id qid ("stablerew " ^ String.concat " " (List.sort compare (List.map interp_string l)))
-          | ["grounded"] -> let (s, g) = unopt (grounded c a.st a.ac) in a.st <- s; emit id qid ("grounded " ^ interp_string g ^ " " ^ handles_string g)
+          | ["grounded"] -> let (s, g) = unopt (grounded c a.st a.ac) in a.st <- s; emit id qid ("grounded " ^ interp_string g ^ " " ^ handles_string g);
+            emit id ("p" ^ string_of_int (!k - 1)) ("printed " ^ hex (string_of_str (print_interp !psr.names g)) ^ " same=1")
           | ["complete"] -> let (s, l) = unopt (complete c a.st a.ac) in a.st <- s; emit id qid ("complete " ^ interps_string l)
           | ["stable"] -> let (s, l) = unopt (stable c a.st a.ac) in a.st <- s; emit id qid ("stable " ^ interps_string l)
           | ["stablepre"] -> let (s, l) = unopt (stable_with_prefilter c a.st a.ac) in a.st <- s; emit id qid ("stablepre " ^ interps_string l)
@@ -318,7 +336,7 @@ let run_adf id (lines : string list) =
           | ["acs"] -> emit id qid ("acs " ^ handles_string a.ac)
           | ["stmca"] -> let (s, l) = unopt (stable_count_cur c heu_a a.ac a.st) in a.st <- s; emit id qid ("stmca " ^ interps_string l)
           | ["stmcb"] -> let (s, l) = unopt (stable_count_cur c heu_b a.ac a.st) in a.st <- s; emit id qid ("stmcb " ^ interps_string l)
-          | "stmng" :: h :: rest | "twoval" :: h :: rest ->
+          | "stmng" :: h :: rest | "twoval" :: h :: rest | "stmngch" :: h :: rest ->
             let two = (List.hd q = "twoval") in
             let heu = heuristic_of_words h rest in
             (match nogood_search_cur c a.ac heu two (nat_of_int !ng_budget) a.st !draws with
@@ -338,7 +356,15 @@ let run_iter id kind (lines : string list) =
     | "v" :: l ->
       let v = List.map n_of_string l in
       let res = if kind = "ITER2" then it2_collect v else it3_collect v in
-      emit id "seq" (join " " handles_string res)
+      emit id "seq" (join " " handles_string res);
+      begin
+        let len = List.length res in
+        let k = len / 2 in
+        let hs o = match o with Some x -> handles_string x | None -> "-" in
+        let last = if res = [] then None else Some (List.nth res (len - 1)) in
+        emit id "api" ("count=" ^ string_of_int len ^ " last=" ^ hs last ^ " nth=" ^ string_of_int k ^ ":" ^ hs (List.nth_opt res k) ^ " hint=1 fused=1 rest="
+                       ^ String.concat "," (List.filter_map (fun j -> if j < len then Some (string_of_int j ^ ":" ^ string_of_int (len - j)) else None) [1; len / 2; max 0 (len - 1)]))
+      end
     | [] -> ()
     | _ -> failwith "bad iter line") lines
 
@@ -396,6 +422,16 @@ let run_ng id (lines : string list) =
         let a = ng_of_string a and b = ng_of_string b in
         emit id (qid ()) ("conclude " ^ (match conclude a b with Some (p, v) -> string_of_int (int_of_nat p) ^ ":" ^ (if v then "1" else "0") | None -> "none")
                           ^ " viol " ^ (if is_violating a b then "1" else "0"))
+      | ["single"; pos; v] ->
+        emit id (qid ()) ("single " ^ ng_string (ng_single (nat_of_int (int_of_string pos)) (v = "1")) !n)
+      | ["disj"; a; b] ->
+        emit id (qid ()) ("disj " ^ ng_string (disjunction (ng_of_string a) (ng_of_string b)) !n)
+      | ["contra"; a; b] ->
+        emit id (qid ()) ("contra " ^ (if is_contradicting (ng_of_string a) (ng_of_string b) then "1" else "0"))
+      | ["pairs"; l] ->
+        let ps = if l = "-" then [] else List.map (fun x -> match String.split_on_char ':' x with
+                   | [i; v] -> (nat_of_int (int_of_string i), v = "1") | _ -> failwith "bad pair") (String.split_on_char ',' l) in
+        emit id (qid ()) ("pairs " ^ (match try_from_pair_iter ps with Some g -> ng_string g !n | None -> "NONE"))
       | ["dump"] ->
         emit id (qid ()) ("dump " ^ join "|" (fun b -> join "," (fun g -> ng_string g !n) b) !store.buckets)
       | [] -> ()
